@@ -839,11 +839,10 @@ func (s *Service) cashChequeReceiptUpdate() {
 				continue
 			}
 			if status == 1 {
-				err := s.chequeStore.PutChainRetrieveTraffic(cashInfo.chainAddress, traffic.retrieveChequeTraffic)
-				if err != nil {
-					s.logger.Errorf("traffic:chainRetrieveTrafficUpdate - %v ", err.Error())
-				}
-				err = s.chequeStore.PutChainTransferTraffic(cashInfo.chainAddress, traffic.transferChequeTraffic)
+				// what the peer has cashed from us is only known to the chain (it is
+				// stored by trafficPeerChainUpdate below): our own cash-out says nothing
+				// about it, in particular not that the peer cashed everything we issued.
+				err := s.chequeStore.PutChainTransferTraffic(cashInfo.chainAddress, traffic.transferChequeTraffic)
 				if err != nil {
 					s.logger.Errorf("traffic:chainTransferTrafficUpdate - %v ", err.Error())
 				}
